@@ -36,7 +36,6 @@ NOT_CAUGHT = {
     "C03b_2": "needs a server tick above 2^31 (wrapping order makes the first update tick look older than the client's initial tick 0); the workload keeps ticks below 2^22 because the unchanged library itself misorders ticks across that distance (DESIGN.md observation O4), so the region is outside the domain in which the oracles are sound",
     "C08b_2": "needs a replicated linked-spawn hierarchy (replicate::<ChildOf>) whose parent and child are hidden in consecutive ticks; the simulator does not replicate linked relationships as components (domain rule R4: client-side recursive despawn is Bevy semantics, see also observation O9)",
     "C13b_1": "only affects events emitted while the client is in the transitional Connecting state; the property promises handling for the four configurations, and the unchanged library itself discards such events when the connection attempt succeeds, so the C13 model makes no promise for them",
-    "C16_2": "needs a component reference to the server entity to reach the client before the pre-spawn mapping does (the client then holds a placeholder for it); on the unchanged library that history leaves the earlier reference pointing to the superseded placeholder (observation O7), so the pre-spawn workload only maps entities that were never referenced (domain rule R5)",
 }
 
 def main():
